@@ -153,6 +153,15 @@ func (pq *KeyGroupPriorityQueue) Push(data []byte) {
 		pq.allDataInCache = false // evicted item is now only in the DB
 	}
 
+	// While some items are only in the DB the cache must stay a prefix of the
+	// sorted items. An item that sorts after everything cached may also sort
+	// after items that are only in the DB, so it can't be served from the cache.
+	if !pq.allDataInCache {
+		if last, ok := pq.cache.PeekLast(); ok && bytes.Equal(last, data) {
+			pq.cache.PopLast()
+		}
+	}
+
 	pq.db.Put(data, nil) // write-through cache to db
 }
 
